@@ -22,6 +22,16 @@ CHECK_DEADLOCK FALSE
 """
 
 
+IRQ = """SPECIFICATION {spec}
+CONSTANTS MaxN = {n}
+  AckFirst = {ack}
+  Modes = {modes}
+{view}CHECK_DEADLOCK FALSE
+"""
+IRQ_SAFE = "VIEW View\nINVARIANT NeverLost\nINVARIANT NoLostWork\nINVARIANT QuietMeansDone\nPROPERTY DisabledUntouched\n"
+ALL_MODES = '{"level", "rise", "fall"}'
+
+
 class Adapter:
     module, prefix = "CsrEventMon_Trace", "Emon"
 
@@ -29,10 +39,22 @@ class Adapter:
         q = "FALSE" if tier == "thorough" else "TRUE"
         return [("CsrEventMon_MC", MC.format(n=2, quick=q),
                  f"CsrEventMon_MC (Quick={q}): enable takes the written mask, write-one-to-clear exactly, "
-                 "re-trigger wins, zeros clear nothing, irq")]
+                 "re-trigger wins, zeros clear nothing, irq"),
+                ("IrqHandler_MC", IRQ.format(spec="Spec", n=2, ack="TRUE", modes=ALL_MODES, view=IRQ_SAFE),
+                 "IrqHandler_MC: a handler following the documented protocol (read pending, write-one-to-clear, serve) over "
+                 "CsrEventMon, stalling anywhere, sources arbitrary: NoLostWork, QuietMeansDone, DisabledUntouched"),
+                ("IrqHandler_MC", IRQ.format(spec="FairSpec", n=2, ack="TRUE", view="PROPERTY Served\n",
+                                             modes=ALL_MODES if tier == "thorough" else '{"level", "rise"}'),
+                 "IrqHandler_MC liveness: outstanding work of an enabled source is eventually served (handler weakly fair)")]
 
     def vacuity(self, tier):
-        return [("CsrEventMon_MC", MC.format(n=1, quick="TRUE") + "PROPERTY NeverCleared\n", "NeverCleared")]
+        return [("CsrEventMon_MC", MC.format(n=1, quick="TRUE") + "PROPERTY NeverCleared\n", "NeverCleared"),
+                # the classic race (serve, then acknowledge) loses work: the invariant is not vacuous
+                ("IrqHandler_MC", IRQ.format(spec="Spec", n=1, ack="FALSE", modes='{"rise"}', view=IRQ_SAFE), "NoLostWork"),
+                ("IrqHandler_MC", IRQ.format(spec="Spec", n=1, ack="TRUE", modes='{"level", "rise"}',
+                                             view="VIEW View\nPROPERTY NoRound\n"), "NoRound"),
+                # without fairness of the handler nothing is ever served: the liveness statement is not vacuous
+                ("IrqHandler_MC", IRQ.format(spec="Spec", n=1, ack="TRUE", modes='{"level"}', view="PROPERTY Served\n"), "Served")]
 
     def export(self, tier):
         return None
@@ -153,8 +175,73 @@ class Adapter:
     def nontrivial(self, s):
         return bool(s["i"]["r_stb"] or s["i"]["w_stb"] or any(s["i"]["i"]))
 
+    # leg B: TLC-generated behaviours of the interrupt-handler protocol (IrqHandler_MC: handler moves, stalls and
+    # source activity chosen by TLC) replayed cycle by cycle on real monitors, attached both ways
+    def extra(self, run, tier):
+        num, depth = (150, 60) if tier == "thorough" else (50, 45)
+        res, behs = tlc.simulate_behaviours(
+            "IrqHandler_MC", IRQ.format(spec="Spec", n=2, ack="TRUE", modes=ALL_MODES, view=IRQ_SAFE),
+            num=num, depth=depth, wanted=("key", "lastin", "st", "dirty"), seed=common.seed() + 11)
+        run.add_tlc(res, "IrqHandler_MC -simulate (handler-protocol behaviours for replay)")
+        jobs, expect = [], []
+        for bi, b in enumerate(behs):
+            if len(b) < 6:
+                continue
+            key = b[0]["key"]
+            n, dw, modes = key["n"], key["dw"], list(key["modes"])
+            em = event.EventMap()
+            for k in range(n):
+                em.add(event.Source(trigger=modes[k]))
+            mon = EventMonitor(em, data_width=dw, alignment=0)
+            regs = [{"start": ri.start, "stop": ri.end} for ri in mon.bus.memory_map.all_resources()]
+            maw = mon.bus.addr_width
+            for attach in (("decoder", "connect") if bi % 3 == 0 else (("decoder",) if bi % 2 else ("connect",))):
+                base = (1 << maw) if (attach == "decoder" and bi % 4 < 2) else 0
+                cfg = {"n": n, "dw": dw, "al": 0, "modes": modes, "regs": regs, "maw": maw, "trigger": "level",
+                       "attach": attach, "base": base, "aw": maw}
+                steps = []
+                for s in b[1:]:
+                    i = s["lastin"]
+                    d = {"addr": i["addr"] + base, "r_stb": i["r_stb"], "w_stb": i["w_stb"], "w_data": unbits(i["w_data"])}
+                    for k in range(n):
+                        d[f"i{k}"] = i["i"][k]
+                    steps.append(d)
+                jobs.append((cfg, steps))
+                # what TLC's behaviour says the monitor shows in each cycle: state BEFORE the step with input lastin
+                expect.append([(unbits(s["st"]["mux"]["rd"]) if 2 not in s["st"]["mux"]["rd"] else None,
+                                int(any(e == 1 and p == 1 for e, p in zip(s["st"]["enable"], s["st"]["ev"]["pending"]))))
+                               for s in b[:-1]])
+        traces = pmap(hwcheck._record_job, jobs)
+        if any("not_observable" in t for t in traces):
+            bad = next(t for t in traces if "not_observable" in t)
+            raise common.MachineryError(f"a 1-2 event monitor could not be built: {bad['not_observable']}")
+        # (1) direct comparison with the states of TLC's behaviour, (2) validation by the trace specification
+        for t, exp in zip(traces, expect):
+            for k, (s, (rd, irq)) in enumerate(zip(t["steps"], exp)):
+                got_rd, got_irq = unbits(s["o"]["r_data"]), s["o"]["irq"]
+                if (rd is not None and got_rd != rd) or got_irq != irq:
+                    run.report(f"handler-behaviour:{json.dumps(t['cfg'], sort_keys=True)[:200]}",
+                               f"IrqHandler_MC behaviour replayed on the real EventMonitor: cycle {k} shows r_data={got_rd} "
+                               f"irq={got_irq}, the specification's state has r_data={rd} irq={irq}; cfg {t['cfg']}",
+                               {"kind": "hw-trace", "adapter": hwcheck.adapter_id(self), "cfg": t["cfg"], "stim": t.get("stim"),
+                                "failing_step": k, "clause": "handler-behaviour", "steps": t["steps"][max(0, k - 6):k + 1]})
+                    break
+        fails = tracecheck.validate(self.module, self.prefix, traces, run,
+                                    "TLC-generated handler-protocol behaviours replayed on the real monitor (leg B)")
+        hwcheck.report_failures(run, self, traces, fails, "behaviour")
+        for t in traces:
+            run.count(len(t["steps"]))
+            ck = json.dumps(t["cfg"], sort_keys=True)
+            for s in t["steps"]:
+                run.distinct((ck, json.dumps(s["i"], sort_keys=True)), self.nontrivial(s))
+        run.cov["handler_behaviours_replayed"] = len(traces)
 
-RULE = ("leg A: TLC explores CsrEventMon_MC (the CsrMux and EventMon specifications composed by the documented "
+
+RULE = ("leg A (system level): IrqHandler_MC composes CsrEventMon with a software interrupt handler that follows the "
+        "documented protocol and with devices that raise work at any time: no work is lost (invariant), every "
+        "outstanding piece of work is eventually served (liveness); the serve-then-acknowledge order and a "
+        "clear-beats-trigger monitor are refuted. leg B: TLC's handler behaviours replayed on real monitors. "
+        "leg A: TLC explores CsrEventMon_MC (the CsrMux and EventMon specifications composed by the documented "
         "glue; conforming CSR initiator interleaved with arbitrary source activity; 1-2 events, 1-2 bit chunks, "
         "alignment 0-1) with history-based statements of C14; leg C: real csr.event.EventMonitor instances with "
         "0-20 events, 1-32 bit buses, alignment 0-2, all trigger modes, attached behind a csr.Decoder or by "
